@@ -25,6 +25,11 @@ Inductive rveh :=
 | RICE (r : rrec)
 | RBEV (r : rrec) (cap : float) (bu : energy_unit)
 | RPHEV (cs cd : rrec) (cap : float) (bu : energy_unit).
+Inductive rfeat :=
+| RFEnergy (u : energy_unit) (init : float)
+| RFTime (u : time_unit) (init : float)
+| RFDistance (u : dist_unit) (init : float)
+| RFSoc (init : float).
 Record rcase := {
   rc_veh : rveh;
   rc_query : qval float;
@@ -34,7 +39,12 @@ Record rcase := {
      (electric, liquid, time, distance) *)
   rc_sm : option (energy_unit * energy_unit * time_unit * dist_unit);
   rc_edges : list (nat * float);
-  rc_hav : float }.
+  rc_hav : float;
+  (* features a [state] configuration section declares BEFORE the model's (StateModel::try_from), and features the
+     query's `state_features` key appends AFTER them (search_app_ops::collect_features): a later definition of a
+     name replaces the earlier one in place (StateModel::extend / CompactOrderedHashMap::insert) *)
+  rc_pre : list (string * rfeat);
+  rc_post : list (string * rfeat) }.
 
 (* exact value of a finite binary64 number (0 for inf / nan: never produced by the generators) *)
 Definition Q_of_float (f : float) : Q :=
@@ -111,9 +121,18 @@ Section Mk.
            | FDistance _ i => FDistance fd i
            | other => other
            end).
+  Definition mk_feature (p : string * rfeat) : string * feature N :=
+    (fst p, match snd p with
+            | RFEnergy u i => FEnergy u (inj i)
+            | RFTime u i => FTime u (inj i)
+            | RFDistance u i => FDistance u (inj i)
+            | RFSoc i => FCustomF64 (inj i)
+            end).
   Definition mk_smodel (c : rcase) (v : vehicle N) : res (smodel N) :=
     let features := state_features N v (speed_features N (mk_engine c)) in
-    extend N [] (match rc_sm c with None => features | Some u => map (retarget u) features end).
+    extend N (map mk_feature (rc_pre c))
+           (List.app (match rc_sm c with None => features | Some u => map (retarget u) features end)
+                     (map mk_feature (rc_post c))).
 End Mk.
 
 (* ------------------------------------------------------------------ M line *)
